@@ -525,10 +525,11 @@ func main() {
 		Rule: "every call chain of depth ≤ 3 (quick) / ≤ 4 (thorough) over the frame kinds {method, instance method, module method, closure called with .()/.call, closure passed to the native ArrayList#map, generator consumed by for…in, async function awaited} " +
 			"with an uncaught throw at the leaf; each chain × filler patterns (0–2 filler statements — a local declaration, a four-line literal — before every call site and the throw: a covering set of ≤ 9 vectors; thorough: all 3^(d+1) vectors for depth ≤ 2) × 2 forms " +
 			"(symbol thrown, .(), await | Error object thrown, .call(), await_sync); the call site of frame k (and the throw) is placed inside the construct number (pattern index + k) mod 7 of {plain, if, while, do/finally, continuation line, do/catch, switch}; one program per combination; a program is non-trivial when its chain crosses a closure, native, generator or promise boundary or has depth ≥ 2",
-		Assume:      []string{"calls are never in tail position", "frames whose file is not the program file (native frames) are ignored", "names of closure frames and of the top-level frame are not asserted"},
-		CaseTimeout: 3 * time.Minute,
-		Setup:       func(c *engine.Ctx) { elkrun.Init() },
-		Run:         run,
+		Assume:           []string{"calls are never in tail position", "frames whose file is not the program file (native frames) are ignored", "names of closure frames and of the top-level frame are not asserted"},
+		CaseTimeout:      3 * time.Minute,
+		ThoroughDeadline: 28 * time.Minute,
+		Setup:            func(c *engine.Ctx) { elkrun.Init() },
+		Run:              run,
 	})
 }
 
